@@ -62,9 +62,44 @@ func openedOnlyForReading(ci ssa.CallInstruction) bool {
 	}
 	readSide := map[string]bool{"ReadDir": true, "Readdir": true, "Readdirnames": true, "Read": true, "ReadAt": true, "Close": true, "Stat": true, "Name": true, "Seek": true}
 	var okUse func(x ssa.Value, depth int) bool
+	var okCell func(cell ssa.Value, depth int) bool
+	okCell = func(cell ssa.Value, depth int) bool {
+		refs := cell.Referrers()
+		if refs == nil || depth > 8 {
+			return false
+		}
+		for _, u := range *refs {
+			switch u := u.(type) {
+			case *ssa.DebugRef:
+			case *ssa.Store:
+				if u.Addr != cell {
+					return false
+				}
+			case *ssa.UnOp:
+				if u.Op != token.MUL || !okUse(u, depth+1) {
+					return false
+				}
+			case *ssa.MakeClosure:
+				fn, _ := u.Fn.(*ssa.Function)
+				if fn == nil {
+					return false
+				}
+				for i, b := range u.Bindings {
+					if b == cell && (i >= len(fn.FreeVars) || !okCell(fn.FreeVars[i], depth+1)) {
+						return false
+					}
+				}
+			case *ssa.Defer, *ssa.Go:
+				return false
+			default:
+				return false
+			}
+		}
+		return true
+	}
 	okUse = func(x ssa.Value, depth int) bool {
 		refs := x.Referrers()
-		if refs == nil || depth > 3 {
+		if refs == nil || depth > 8 {
 			return false
 		}
 		for _, u := range *refs {
@@ -75,6 +110,13 @@ func openedOnlyForReading(ci ssa.CallInstruction) bool {
 					return false
 				}
 			case *ssa.BinOp:
+			case *ssa.Store:
+				// kept in a local variable (captured by a deferred closure that closes it): every load of that variable,
+				// here and in the closures that capture it, is again used on the read side only
+				al, isLocal := u.Addr.(*ssa.Alloc)
+				if u.Val != x || !isLocal || !okCell(al, depth+1) {
+					return false
+				}
 			case ssa.CallInstruction:
 				sc := u.Common().StaticCallee()
 				if sc == nil || sc.Signature.Recv() == nil || len(u.Common().Args) == 0 || u.Common().Args[0] != x || !readSide[sc.Name()] {
